@@ -10,7 +10,7 @@ from sim import core, progen
 PROP = "C03"
 LEVEL = "exploration"
 BUDGET = {"quick": 400, "thorough": 1700}
-NBATCH = {"quick": 16, "thorough": 220}
+NBATCH = {"quick": 32, "thorough": 300}
 PER_BATCH = {"quick": 30, "thorough": 40}
 RULE = ("batches of generated programs; per batch 3 (quick) or 4 (thorough) fresh interpreters ('nodes'), each with its own "
         "PYTHONHASHSEED drawn from the PRNG, its own permutation of definition order inside every module, of module import "
